@@ -262,6 +262,9 @@ pub fn run(tier: Tier, args: &[String]) -> i32 {
     // whose Serialize fails, alone or after an ordinary request; a model state whose view
     // fails) followed by ordinary steps - every later step's bytes must be exactly that
     // step's output
+    // third reduced case: render-free histories {TwoQuiet, ThreeQuiet, Single, Quiet}: nothing
+    // ever renders or notifies, so the registry holds no `Never` entry (every render leaves one
+    // for good - K3 - which inflates the registry's length and can mask what depends on it)
     let fail_menu = vec![0usize, 11, 12, 13];
     let deep_depth = mc_kit::arg_value(args, "--deep-depth")
         .and_then(|s| s.parse().ok())
@@ -271,11 +274,13 @@ pub fn run(tier: Tier, args: &[String]) -> i32 {
             (depth, max_out, true, Some(crate::app::main_menu())),
             (deep_depth, usize::MAX, true, Some(deep_menu)),
             (5, usize::MAX, true, Some(fail_menu)),
+            (5, usize::MAX, true, Some(crate::app::render_free_menu())),
         ],
         Tier::Thorough => vec![
             (depth.saturating_sub(1).max(1), usize::MAX, true, Some(crate::app::main_menu())),
             (deep_depth, usize::MAX, true, Some(deep_menu)),
             (6, usize::MAX, true, Some(fail_menu)),
+            (6, usize::MAX, true, Some(crate::app::render_free_menu())),
             (depth, max_out, false, Some(crate::app::main_menu())),
         ],
     };
